@@ -13,7 +13,7 @@ import (
 var _ = ast.Inspect
 
 func init() {
-	propertyRules["C11"] = []ruleFn{rulePrefix, ruleIdx, ruleOptionalCB, rulePreCommitEnabled, ruleDeref, ruleStaleIndex, ruleViewResetCover, ruleDefs, ruleRejectedNoTimer}
+	propertyRules["C11"] = []ruleFn{rulePrefix, ruleIdx, ruleOptionalCB, rulePreCommitEnabled, ruleDeref, ruleStaleIndex, ruleViewResetCover, ruleDefs, ruleRejectedNoTimer, ruleCVPending}
 	propertyExplain["C11"] = "G-PREFIX: in each handler every effect site (state write other than the liveness note, effectful callback, typed send, call of an effectful function) is behind that handler's admission condition, so inadmissible or duplicate inputs reach no effect; IDX: every index into a per-validator table or the validator list is a range key, an admitted sender index, MyIndex under MyIndex>=0, or the primary index; G-OPTIONAL-CB: callbacks checkConfig allows to be nil are called only under their enabling fact; G-DEREF: stored slots are dereferenced only when known non-nil; STALE-INDEX. Panic freedom is decided for these classes only (not for nil results of application callbacks, type assertions in payload implementations, division by a zero increment, misuse before Start)."
 }
 
